@@ -577,6 +577,14 @@ class Interp:
         if m == "collect" and not n["args"]:
             tf = (n.get("turbofish") or "").replace(" ", "").lstrip(":").lstrip("<")
             return self.as_type(r, tf)
+        if m == "map" and len(n["args"]) == 1 and n["args"][0]["k"] == "path" and len(n["args"][0]["segs"]) >= 2 and n["args"][0]["segs"][0] not in ("self",):
+            # point-free `.map(Expr::from)` == `.map(|x| Expr::from(x))`
+            fpath = n["args"][0]
+            synth = {"k": "closure", "l": n.get("l", 0), "params": [{"k": "ident", "name": "%pf", "l": 0}],
+                     "body": {"k": "call", "l": n.get("l", 0), "f": fpath, "args": [{"k": "path", "p": "%pf", "segs": ["%pf"], "l": 0}]}}
+            mapped = self.map_seq(r, self.e_closure(synth, env))
+            if mapped is not None:
+                return mapped
         args = tuple(self.eval(a, env) for a in n["args"])
         if m == "map" and len(args) == 1 and args[0][0] == "clo":
             mapped = self.map_seq(r, args[0])
